@@ -8,17 +8,20 @@ def main(tier):
     c.build('plain', ['lcx'])
     if quick:
         c.run_family('plain', 'c20.py', 'ext', args=['--n=2', '--lean=1'], per_case_timeout=30, chunk=40, nsamples=2)
+        c.run_family('plain', 'c20.py', 'sdep', args=['--lean=1'], per_case_timeout=30, chunk=25, nsamples=1)
     else:
         c.run_family('plain', 'c20.py', 'ext', args=['--n=3', '--edges=1'], per_case_timeout=30, chunk=150, nsamples=2)
+        c.run_family('plain', 'c20.py', 'sdep', per_case_timeout=30, chunk=50, nsamples=1)
     return c.finish(
         rule='every dependency graph on n variables (quick n <= 2 complete; thorough n <= 3 with at most one read edge per model for n = 3) x every placement over two connected components x every '
              'marking of <= 2 variables as external (home variable of each class incl. states, constants, computed constants, algebraic and NLA unknowns; a non-primary twin; both twins; the VOI; '
              'a variable outside the model) x every declared dependency of <= 1 other variable (each legal one, itself, a foreign variable), plus every under-constrained variant whose dropped '
-             'equation defines the marked variable; plus (n = 3) every single marking with TWO declared dependencies living in different components, also with names shared across components; (quick: no self-reading states / guessed unknowns in the n <= 2 part); judged = markings analysed and compared with the unmarked analysis and the construction, and whose generated C and Python ran with a recording callback',
+             'equation defines the marked variable; plus (n = 3) every single marking with TWO declared dependencies living in different components, also with names shared across components; (quick: no self-reading states / guessed unknowns in the n <= 2 part); plus family sdep: every graph on 2-3 variables (<= 2 read edges for n = 3) with a state x every placement (quick: one component or alternating) x every non-state variable that something reads, marked external with a declared dependency on each state or state-dependent variable whose value does not depend on it; every run has a SECOND evaluation point: the states are moved as an integrator would, the callback of an external variable with a state-dependent declared dependency answers differently, ONLY computeVariables is called, and every non-external value must match the equations at the new states; judged = markings analysed and compared with the unmarked analysis and the construction, and whose generated C and Python ran with a recording callback',
         assumptions=[
             'the callback returns a fixed value per external variable; dependency order is judged at the LAST invocation for an external variable (initialiseVariables may call the callback before computed constants exist)',
             'a marking whose class the analyser itself treats as primary (its AnalyserVariable::variable() is the marked twin) needs no message',
             'markings that remove every state of the model are run but not judged (the variable of integration is left dangling; the statement does not say what that model is)',
-            'declared dependencies are chosen among variables that do not themselves depend on the marked variable; dependencies on states are not generated',
+            'declared dependencies are chosen among variables that do not themselves depend on the marked variable; in family ext dependencies on states are not generated (family sdep generates them)',
+            'second evaluation point: voi is NOT moved (by design only state/rate-based equations and external variables are computed again by computeVariables, so a variable that depends on voi alone is as fresh as the last computeRates call); rates are not compared there; an external variable without a state-dependent declared dependency answers the same value at both points',
             'implicit equations whose unknown carries an initial guess read no other variable: next to another variable CellML cannot tell a guess from a constant, libcellml resolves it by equation order and, by design, discards an equation all of whose unknowns are external - no reading-independent oracle exists there (tried and withdrawn, see DESIGN 8.4)',
         ])
